@@ -10,6 +10,7 @@ mod rx;
 mod spec;
 mod c18;
 mod c19;
+mod c20;
 
 use engine::*;
 
@@ -87,6 +88,7 @@ fn main() {
                         "C01" => c01::replay(&ctx, &case),
                         "C02" => c02::replay(&ctx, &case),
                         "C08" => c08::replay(&ctx, &case),
+                        "C20" => c20::replay(&ctx, &case),
                         "C18" => c18::replay(&ctx, &case),
                         "C19" => c19::replay(&ctx, &case),
                         _ => usage(),
@@ -96,6 +98,7 @@ fn main() {
                         "C01" => c01::run(&ctx),
                         "C02" => c02::run(&ctx),
                         "C08" => c08::run(&ctx),
+                        "C20" => c20::run(&ctx),
                         "C18" => c18::run(&ctx),
                         "C19" => c19::run(&ctx),
                         _ => usage(),
